@@ -27,7 +27,14 @@ type Trace struct {
 	// Fixed, when set, may pin the result of a read to a constant: this is
 	// how decode specialisation binds instruction bytes (DESIGN 2.2).
 	Fixed func(kind, dev string, args []BV) (BV, bool)
+	// Care restricts the canonical comparison forms to the states satisfying
+	// it (zero value = everywhere).
+	Care bdd.Node
+	care bool
 }
+
+// SetCare restricts MultisetChar/SequenceChar to the given care set.
+func (t *Trace) SetCare(c bdd.Node) { t.Care, t.care = c, true }
 
 func NewTrace(c *Ctx) *Trace { return &Trace{C: c} }
 
@@ -140,6 +147,9 @@ func (t *Trace) probes(e *Event) []BV {
 
 func (t *Trace) matches(e *Event) bdd.Node {
 	ind := e.Guard
+	if t.care {
+		ind = t.C.M.And(ind, t.Care)
+	}
 	ps := t.probes(e)
 	for i, a := range e.Args {
 		ind = t.C.M.And(ind, t.C.Eq(a, ps[i]))
@@ -193,6 +203,9 @@ func (t *Trace) SequenceChar(keep func(*Event) bool) map[string]bdd.Node {
 		out[k] = t.C.M.Or(out[k], ind)
 		one := t.C.Const(countWidth, 0)
 		one[0] = e.Guard
+		if t.care {
+			one[0] = t.C.M.And(e.Guard, t.Care)
+		}
 		pos = t.C.Add(pos, one)
 	}
 	for k, v := range out {
@@ -233,9 +246,21 @@ func (c *Ctx) DiffMultiset(impl, ref map[string]BV) []string {
 		}
 		ne := c.M.Not(c.Eq(a, b))
 		w, _ := c.Witness(ne)
-		parts := strings.SplitN(k, "|", 3)
-		out = append(out, fmt.Sprintf("%s on %s: implementation makes this call %d time(s), reference %d time(s), in state {%s}",
-			parts[0], parts[1], c.EvalBV(a, w), c.EvalBV(b, w), strings.Join(c.DescribeAssignment(w), " ")))
+		parts := strings.Split(k, "|")
+		var call []string
+		for i, ws := range parts[2:] {
+			var wd int
+			fmt.Sscan(ws, &wd)
+			call = append(call, fmt.Sprintf("%#x", c.EvalBV(c.Atom(fmt.Sprintf("probe.arg%d.w%d", i, wd), wd), w)))
+		}
+		var st []string
+		for _, s := range c.DescribeAssignment(w) {
+			if !strings.HasPrefix(s, "probe.") {
+				st = append(st, s)
+			}
+		}
+		out = append(out, fmt.Sprintf("%s on %s: the call %s(%s) is made %d time(s) by the implementation and %d time(s) by the reference in the state {%s}",
+			parts[0], parts[1], parts[0], strings.Join(call, ", "), c.EvalBV(a, w), c.EvalBV(b, w), strings.Join(st, " ")))
 	}
 	return out
 }
